@@ -13,9 +13,11 @@ import (
 	"hash/fnv"
 	"os"
 	"regexp"
+	"runtime"
 	"sort"
 	"strings"
 	"sync"
+	"time"
 
 	"honnef.co/go/tools/go/ir"
 	"honnef.co/go/tools/go/ir/irutil"
@@ -367,9 +369,18 @@ func (r *runner) fail(class, f string, a ...any) {
 	}
 }
 
+// mode is "" (plain build), "simrace" (race build, simulated scheduler with
+// race-invisible gates) or "freerace" (race build, no simulation). In the
+// race modes the harness must not read other builders' state or share its own
+// bookkeeping between tasks: that would be a race of the harness.
+var raceMode string
+
 // checkBuilt is called at the moment p.Build() returned in some task, while
 // other builders may be parked in the middle of their work.
 func (r *runner) checkBuilt(prog *ir.Program, p *ir.Package) {
+	if raceMode != "" {
+		return
+	}
 	for _, fn := range sharedReach(prog, p) {
 		want, ok := r.ref[fnKey(fn)]
 		if !ok {
@@ -421,11 +432,14 @@ func pkgPath(fn *ir.Function) string {
 
 func execute(c Case, tapes *[][]uint32) batch.Result {
 	res := batch.Result{Counters: map[string]int{}}
+	if raceMode != "" {
+		batch.RaceReports() // drop anything reported before this case
+	}
 	mode := ir.BuilderMode(c.Mode)
 	if c.CPULimit <= 0 {
 		c.CPULimit = 4
 	}
-	ir.VerifSetCPULimit(c.CPULimit)
+	setCPULimit(c.CPULimit)
 	res.Counters[fmt.Sprintf("cpu_limit:%d", c.CPULimit)]++
 	// reference: serial build of a fresh program, no simulation
 	rprog, _, _, err := create(&c.Prog, mode|ir.BuildSerially)
@@ -438,7 +452,7 @@ func execute(c Case, tapes *[][]uint32) batch.Result {
 		rprog.Build()
 		verifsim.Quiesce()
 	})
-	ir.VerifSetCPULimit(c.CPULimit)
+	setCPULimit(c.CPULimit)
 	if len(rvr.Panics) > 0 {
 		return batch.Result{Violation: &batch.Violation{Class: "panic", Detail: fmt.Sprintf("serial reference build panicked: %s\n%s", rvr.Panics[0].Value, firstLines(rvr.Panics[0].Stack, 30))}}
 	}
@@ -466,7 +480,10 @@ func execute(c Case, tapes *[][]uint32) batch.Result {
 		if err != nil {
 			return batch.Result{Infra: err.Error()}
 		}
-		cfg := verifsim.Config{Seed: s.Seed, Strategy: verifsim.Strategy(s.Strategy), StratArg: s.StratArg, Horizon: 1500, MapOrder: true, StepBound: 2_000_000}
+		if raceMode != "" && si >= 10 {
+			break
+		}
+		cfg := verifsim.Config{Seed: s.Seed, Strategy: verifsim.Strategy(s.Strategy), StratArg: s.StratArg, Horizon: 1500, MapOrder: true, StepBound: 2_000_000, RaceGates: raceMode == "simrace"}
 		if s.Pinned {
 			cfg.Tape = s.Tape
 			if cfg.Tape == nil {
@@ -486,7 +503,7 @@ func execute(c Case, tapes *[][]uint32) batch.Result {
 				order = append(order, i)
 			}
 		}
-		vr := verifsim.Run(cfg, func() {
+		body := func() {
 			var wg sync.WaitGroup
 			buildPkg := func(p *ir.Package) {
 				verifsim.WGAdd(&wg, 1)
@@ -542,7 +559,7 @@ func execute(c Case, tapes *[][]uint32) batch.Result {
 								ms := prog.MethodSets.MethodSet(T)
 								for i := 0; i < ms.Len(); i++ {
 									fn := prog.MethodValue(ms.At(i))
-									if fn == nil {
+									if fn == nil || raceMode != "" {
 										continue
 									}
 									r.cnt["method_value_calls"]++
@@ -574,8 +591,26 @@ func execute(c Case, tapes *[][]uint32) batch.Result {
 			// goroutines of Program.Build release their cpuLimit token after
 			// wg.Done: let them finish (the "process" does not exit here)
 			verifsim.Quiesce()
-		})
-		ir.VerifSetCPULimit(c.CPULimit)
+		}
+		var vr verifsim.Result
+		if raceMode == "freerace" {
+			// no simulation: real goroutines, real parallelism
+			old := runtime.GOMAXPROCS([]int{2, 4, 16}[si%3])
+			body()
+			// Program.Build's goroutines release their token after wg.Done
+			for i := 0; i < 2000 && ir.VerifCPULimitLen() > 0; i++ {
+				time.Sleep(100 * time.Microsecond)
+			}
+			runtime.GOMAXPROCS(old)
+		} else {
+			vr = verifsim.Run(cfg, body)
+		}
+		setCPULimit(c.CPULimit)
+		if rep := batch.RaceReports(); rep != "" {
+			res.Counters["race_reports"] += strings.Count(rep, "WARNING: DATA RACE")
+			fr := firstReport(rep)
+			r.fail(raceClass(fr), "the race detector reported:\n%s", fr)
+		}
 		if tapes != nil {
 			*tapes = append(*tapes, vr.Tape)
 		}
@@ -609,14 +644,14 @@ func execute(c Case, tapes *[][]uint32) batch.Result {
 				// wg.Done), and a goroutine of pass-through code that is still
 				// running when the next simulation starts would enter the
 				// kernel as if it were the running task.
-				ivr := verifsim.Run(verifsim.Config{Strategy: verifsim.StratFIFO, StepBound: 2_000_000}, func() {
+				ivr := verifsim.Run(verifsim.Config{Strategy: verifsim.StratFIFO, StepBound: 2_000_000, RaceGates: raceMode != ""}, func() {
 					prog.Build()
 					for _, p := range pkgs {
 						p.Build()
 					}
 					verifsim.Quiesce()
 				})
-				ir.VerifSetCPULimit(c.CPULimit)
+				setCPULimit(c.CPULimit)
 				if len(ivr.Panics) > 0 || ivr.Deadlock != "" || ivr.StepBound {
 					r.fail("build-not-idempotent", "calling Build again panicked or did not finish: %v %s", ivr.Panics, ivr.Deadlock)
 				}
@@ -647,6 +682,23 @@ func execute(c Case, tapes *[][]uint32) batch.Result {
 	return res
 }
 
+var cpuLimitSet bool
+
+// setCPULimit installs a fresh build semaphore. In the free-running race mode
+// the variable is written only once per OS process (before any builder
+// goroutine exists): replacing it while goroutines of an earlier build may
+// still read it would be a data race of the harness, not of go/ir.
+func setCPULimit(n int) {
+	if raceMode == "freerace" {
+		if !cpuLimitSet {
+			ir.VerifSetCPULimit(16)
+			cpuLimitSet = true
+		}
+		return
+	}
+	ir.VerifSetCPULimit(n)
+}
+
 func firstLines(s string, n int) string {
 	l := strings.Split(s, "\n")
 	if len(l) > n {
@@ -657,7 +709,55 @@ func firstLines(s string, n int) string {
 
 type engine struct{}
 
-func (engine) Name() string     { return "irsim" }
+func (engine) Name() string {
+	if raceMode != "" {
+		return "irsim-" + raceMode
+	}
+	return "irsim"
+}
+
+func firstReport(rep string) string {
+	i := strings.Index(rep, "WARNING: DATA RACE")
+	if i < 0 {
+		return rep
+	}
+	rep = rep[i:]
+	if j := strings.Index(rep, "=================="); j > 0 {
+		rep = rep[:j]
+	}
+	l := strings.Split(rep, "\n")
+	if len(l) > 60 {
+		l = l[:60]
+	}
+	return strings.Join(l, "\n")
+}
+
+func raceClass(rep string) string {
+	var fr []string
+	for _, l := range strings.Split(rep, "\n") {
+		l = strings.TrimSpace(l)
+		if strings.HasPrefix(l, "honnef.co/go/tools/") && !strings.Contains(l, "/internal/verif") {
+			f := l
+			if k := strings.Index(f, "("); k > 0 {
+				f = f[:k]
+			}
+			f = strings.TrimPrefix(f, "honnef.co/go/tools/")
+			dup := false
+			for _, x := range fr {
+				if x == f {
+					dup = true
+				}
+			}
+			if !dup {
+				fr = append(fr, f)
+			}
+			if len(fr) == 2 {
+				break
+			}
+		}
+	}
+	return "data-race:" + strings.Join(fr, "+")
+}
 func (engine) Property() string { return "C18" }
 
 func (engine) Generate(seed uint64, index int, tier string) json.RawMessage {
@@ -808,6 +908,18 @@ func (engine) Describe() batch.Description {
 }
 
 func main() {
-	_ = os.Getenv
+	var rest []string
+	for _, a := range os.Args[1:] {
+		if strings.HasPrefix(a, "-family=") {
+			raceMode = a[len("-family="):]
+			batch.ExtraWorkerArgs = append(batch.ExtraWorkerArgs, a)
+		} else {
+			rest = append(rest, a)
+		}
+	}
+	os.Args = append(os.Args[:1], rest...)
+	if raceMode != "" {
+		batch.WorkerEnv = batch.RaceEnv
+	}
 	batch.Main(engine{})
 }
